@@ -600,6 +600,52 @@ def lookup_chunk(queries):
     return out
 
 
+def window_chunk(queries):
+    """look-ups with the optional wavelength window: (name, ref, wmin, wmax) -> name of the entry found | error class"""
+    from optiland.materials.material import Material
+    warnings.filterwarnings('ignore')
+    out = []
+    for name, ref, wmin, wmax in queries:
+        with contextlib.redirect_stdout(io.StringIO()), np.errstate(all='ignore'):
+            try:
+                b = Material.__new__(Material)
+                b.name, b.reference, b.robust = name, ref, True
+                b.min_wavelength, b.max_wavelength = wmin, wmax
+                _f, md = b._retrieve_file()
+                out.append(('row', _row_key(md)))
+            except Exception as e:  # noqa
+                out.append(('error', type(e).__name__))
+    return out
+
+
+def run_window_lookups(ctx, rows, amb_rows):
+    """the exact-name clause with the optional arguments min_wavelength / max_wavelength set to the entry's own stated
+    range (its limits included): the entry itself qualifies, so an entry with exactly that name must come back"""
+    IN, IR = 4, 3
+    amb_names = {rows[i][IN] for i in amb_rows}
+    cand = [r for r in rows if r[IN] not in amb_names and not has_meta(r[IN]) and not has_meta(r[IR])
+            and math.isfinite(float(r[6])) and math.isfinite(float(r[7])) and 0 < float(r[6]) < float(r[7])]
+    # (two HIKARI rows of the CSV state a range whose lower limit exceeds the upper one: no wavelength lies inside)
+    if ctx.quick():
+        cand = ctx.rng.sample(cand, min(300, len(cand)))
+    queries = []
+    for r in cand:
+        lo, hi = float(r[6]), float(r[7])
+        queries.append((r[IN], r[IR], *ctx.rng.choice([(lo, hi), (lo, None), (None, hi), (lo, 0.5 * (lo + hi))])))
+    chunks = [queries[i::NPROC * 2] for i in range(NPROC * 2)]
+    chunks = [c for c in chunks if c]
+    for c, o in zip(chunks, pool_map(window_chunk, chunks)):
+        for q, res in zip(c, o):
+            case = {'kind': 'window-lookup', 'name': q[0], 'reference': q[1], 'min_wavelength': q[2],
+                    'max_wavelength': q[3]}
+            ctx.case(case, True)
+            ctx.count('lookups with a wavelength window')
+            if res[0] != 'row' or res[1][1] != q[0]:
+                ctx.fail('looking a material up by an exact catalogue name returns an entry with exactly that name '
+                         '(wavelength window = the entry\'s own stated range)', case,
+                         res[1][1] if res[0] == 'row' else res[1], q[0])
+
+
 def has_meta(s):
     return bool(s) and any(c in META for c in s)
 
@@ -872,6 +918,8 @@ def run(tier, seed, replay=None):
                         seen2.add((r[IN], r[IR]))
                         queries.append((r[IN], r[IR]))
         run_lookups(ctx, drv, rows, amb_rows, queries)
+        if only_lookup is None:
+            run_window_lookups(ctx, rows, amb_rows)
     # ---- model glass, ideal material
     if not replay:
         schott = [(e[4], e[3], e[2]) for e in extras if e[0] == 'abbe' and e[2].startswith('glass/schott/')
